@@ -109,7 +109,13 @@ def denote(line: str) -> Optional[Tuple[str, Tuple[Any, ...]]]:
     rest = toks[1:]
     out: List[Any] = []
     for kind in op.imms:
-        if kind in ("u8", "i8"):
+        if kind == "optu8":
+            if rest:
+                v = parse_int(rest.pop(0))
+                if v is None:
+                    return None
+                out.append(v)
+        elif kind in ("u8", "i8"):
             if not rest:
                 return None
             t = rest.pop(0)
@@ -161,7 +167,9 @@ def base_lines(tier: str) -> List[str]:  # pylint: disable=too-many-branches
     for op in spec.OPS:
         choices: List[List[str]] = []
         for kind in op.imms:
-            if kind == "u8":
+            if kind == "optu8":
+                c = ["", "0", "1", "255", "0x10"]
+            elif kind == "u8":
                 vals = U8 if tier != "quick" else [0, 1, 255]
                 c = [str(v) for v in vals] + ["0x10", "010"]
             elif kind == "i8":
